@@ -16,11 +16,15 @@ PID = "C02"
 TRANSLATE = True
 TRANSLATE_ALGO = ["AlgoParse"]   # Gen/AlgoParse.lean is regenerated on every run from io.py::parse_swc (the read loop and its context) and file.py::FileReader.__exit__
 DRIVER_FILES = ["SwcVerif/Model/AlgoRunParse.lean"]
-LEAN_MODS = ["SwcVerif.Props.C02"]
+LEAN_MODS = ["SwcVerif.Props.C02", "SwcVerif.Props.C02Gen"]
 THEOREMS = [
     "C02.exit_flag_pinned", "C02.consts_pinned", "C02.read_ok_iff", "C02.read_row_count", "C02.read_never_partial", "C02.swallow_truncates",
     "C02.blank_and_comment_skipped", "C02.data_line_fields", "C02.natOf_append", "C02.float_token_value", "C02.too_few_fields_invalid",
     "C02.trailing_fields_only_warn", "C02.exponent_is_trailing_char", "C02.glued_suffix_not_a_tail",
+    # the read loop and FileReader.__exit__ as TRANSLATED from the source on every run (Gen/AlgoParse.lean)
+    "RefineParse.parse_refines", "RefineParse.loop_valid", "RefineParse.loop_invalid", "RefineParse.columns",
+    "C02.generated_parse_eq_spec", "C02.generated_read_ok_iff", "C02.generated_columns", "C02.generated_never_partial",
+    "C02.generated_decode_fails_loudly", "C02.generated_warning_iff", "C02.generated_exit_propagates",
 ]
 TRUSTED = ["hand-written recogniser of the SWC line language (Model/SwcText.lean), tested equal to CPython's `re` on generated lines, pinned to the regex strings extracted from io.py (Gen/Consts.lean)"]
 ASSUMPTIONS = ["CPython re / int() / float() / str methods / text decoding / universal newlines", "pandas DataFrame construction from the collected columns"]
